@@ -17,7 +17,7 @@ EXPLANATION = (
     "are cursor positions / span ends (char boundaries); `position - 1` only directly after a single-byte character. "
     "R4 (LOOP): every CFG cycle on the path contains a call that consumes a finite input. R5: the statement counter is "
     "guarded before it can exceed 16 bits."
-    " R1's ledger entries may name the match arm that must dominate the site (a slice justified by 'the token is a string literal' must sit inside that arm); thread-local re-entrancy is a ledger site."
+    " R1's ledger entries may name the match arm that must dominate the site (a slice justified by 'the token is a string literal' must sit inside that arm); thread-local re-entrancy is a ledger site. R6: every label of an assembler diagnostic (LabeledSpan::at / at_offset / new in lace::error) is a token span handed to the constructor or an offset built from the source length that cannot pass its end (len, len of a trimmed part, checked_sub/saturating_sub of it, 0)."
 )
 NOT_DECIDED = "termination as such (R4 is its structural part), the wording of diagnostics, memory exhaustion; miette's rendering is external code"
 
@@ -280,6 +280,90 @@ def run(ctx):
             ctx.violation("line-guard", sp_file_line(pf.term(ab).get("sp")),
                           "a statement can be added when the 16-bit line counter is already at its maximum: numbering wraps (release) or panics (debug) "
                           "for programs of 65535+ words (two `.blkw xFFFF`)")
+    ctx.finish_rule()
+
+    # ------------------------------------------------------------------ R6
+    # the place a diagnostic points to lies inside the source: every label of an assembler diagnostic is the span of a token handed to the
+    # constructor (tokens are slices of the source), or an offset derived from the source length that cannot pass its end
+    ctx.rule("C05.R6", "diagnostic labels are token spans or offsets bounded by the source length", floor=12)
+    PART = re.compile(r"core::str::<impl str>::(trim|trim_start|trim_end|trim_start_matches|trim_end_matches|trim_matches)$")
+
+    def from_param(f, e):
+        e = kit.strip_refs(e)
+        while e[0] in ("field", "deref", "ref", "downcast"):
+            e = e[1]
+        if e[0] == "call" and re.search(r"clone::Clone>::clone$|convert::Into<.*>>::into$|convert::From<.*>>::from$", str(e[1])) and len(e[2]) == 1:
+            return from_param(f, e[2][0])
+        return e[0] == "arg"
+
+    def le_len(f, e, depth=0):
+        """is the usize expression at most the length of the source text (a parameter of type &str)?"""
+        e = kit.strip_refs(e)
+        if depth > 8:
+            return False
+        if e[0] == "const":
+            return e[1] == 0
+        if e[0] == "call":
+            c = str(e[1])
+            if c.endswith("str>::len") and len(e[2]) == 1:
+                x = kit.strip_refs(e[2][0])
+                while x[0] == "call" and PART.search(str(x[1])) and x[2]:
+                    x = kit.strip_refs(x[2][0])
+                return x[0] == "arg"
+            if re.search(r"Option::<T>::unwrap_or$", c) and len(e[2]) == 2:
+                return le_len(f, e[2][1], depth + 1) and le_len(f, e[2][0], depth + 1)
+            if re.search(r"core::num::<impl usize>::(checked_sub|saturating_sub)$", c) and len(e[2]) == 2:
+                return le_len(f, e[2][0], depth + 1)
+            if re.search(r"core::cmp::(Ord::)?min$|core::cmp::min$", c) and len(e[2]) == 2:
+                return le_len(f, e[2][0], depth + 1) or le_len(f, e[2][1], depth + 1)
+        if e[0] in ("bin", "checked") and e[1] == "Sub":
+            return le_len(f, e[2], depth + 1)          # a difference that does not underflow is below its minuend (the ledger keeps the underflow)
+        return False
+
+    nlab = 0
+    for n, f in sorted(prog.fns.items()):
+        if f.bkind != "fn" or not n.startswith("lace::error::"):
+            continue
+        for b, t, c in f.calls():
+            if not (c and re.search(r"miette::protocol::LabeledSpan::(at|at_offset|new|new_with_span|underline|new_primary_with_span)$", c)):
+                continue
+            nlab += 1
+            ctx.instance(1)
+            meth = c.rsplit("::", 1)[1]
+            tys = t.get("arg_tys") or []
+            # the span operand: `at(span, label)`, `at_offset(offset, label)`, `new(label, offset, len)`, `underline(span)`
+            why = None
+            if meth in ("at", "underline", "new_with_span", "new_primary_with_span"):
+                k = 0 if meth in ("at", "underline") else 1
+                e = f.expr(t["args"][k], 14)
+                ty = tys[k] if k < len(tys) else ""
+                if from_param(f, e):
+                    pass
+                else:
+                    x = kit.strip_refs(e)
+                    if x[0] == "agg" and len(x[2]) == 2 and ("Range" in str(x[1][1:]) or x[1][0] == "tuple"):
+                        a_, b_ = x[2]
+                        is_range = x[1][0] != "tuple"
+                        if is_range and not (le_len(f, b_) and le_len(f, a_)):
+                            why = "the range `%s` is not bounded by the length of the source" % expr_str(x, 80)
+                        elif not is_range and not (le_len(f, a_) and b_ == ("const", 0)):
+                            why = "the (offset, length) pair `%s` is not an empty span at an offset bounded by the source length" % expr_str(x, 80)
+                    else:
+                        why = "its span `%s` (%s) is neither a token span handed to the constructor nor built from the source length" % (expr_str(e, 80), ty[:40])
+            elif meth == "at_offset":
+                e = f.expr(t["args"][0], 14)
+                if not le_len(f, e):
+                    why = "the offset `%s` is not bounded by the length of the source" % expr_str(e, 80)
+            else:   # new(label, offset, len)
+                e1, e2 = f.expr(t["args"][1], 14), f.expr(t["args"][2], 14)
+                if not (le_len(f, e1) and kit.strip_refs(e2) == ("const", 0)):
+                    why = "offset `%s` with length `%s` is not an empty span bounded by the source length" % (expr_str(e1, 60), expr_str(e2, 40))
+            ctx.oblig(why is None, {"label in": short(n), "via": meth}, "token span of a parameter, or offset <= len(src)")
+            if why:
+                ctx.violation("label-span|%s" % short(n), sp_file_line(t.get("sp")),
+                              "the diagnostic built by `%s` labels a place that can lie outside the source: %s (the label is then dropped or the report fails to render)"
+                              % (short(n), why))
+    ctx.need(nlab >= 12, "LabeledSpan constructions in the assembler's error constructors (found %d)" % nlab)
     ctx.finish_rule()
 
 
